@@ -222,45 +222,48 @@ func c25Sequence(rt *rapid.T, rec *ev.Rec, w *world, n int, mode string, ka *c25
 		time.Sleep(20 * time.Millisecond)
 		w.forget(tg)
 	case "concurrent":
-		k := rapid.IntRange(4, 16).Draw(rt, "clients")
+		k := rapid.IntRange(8, 24).Draw(rt, "clients")
 		nf := rapid.IntRange(4, 24).Draw(rt, "fields-per-request")
 		rec.Case(fmt.Sprintf("concurrent|%d|%d|%d", k, nf, n), true, "mode:concurrent")
 		rec.Sample(map[string]any{"mode": mode, "clients": k, "fields_per_request": nf})
 		wit["clients"], wit["fields_per_request"] = k, nf
-		var wg sync.WaitGroup
-		start := make(chan struct{})
-		for i := 0; i < k; i++ {
-			tg := fmt.Sprintf("%s/p%d", base, i)
-			fl := map[string]string{}
-			var sb bytes.Buffer
-			body := []byte(fmt.Sprintf("body-of-%d-%d", n, i))
-			fmt.Fprintf(&sb, "POST %s HTTP/1.1\r\nHost: example.org\r\nConnection: close\r\nContent-Length: %d\r\n", tg, len(body))
-			for j := 0; j < nf; j++ {
-				name := fmt.Sprintf("x-p%d-%c%d", i, 'a'+rune((j*7+i)%26), j)
-				val := fmt.Sprintf("v-%d-%d-%d", n, i, j)
-				fl[name] = val
-				fmt.Fprintf(&sb, "%s: %s\r\n", name, val)
-			}
-			sb.WriteString("\r\n")
-			sb.Write(body)
-			issued[tg] = &c25Issued{Method: "POST", Fields: fl, Body: body, Sent: len(body), CL: true}
-			raw := sb.Bytes()
-			wg.Add(1)
-			go func() {
-				defer wg.Done()
-				c, err := w.rig.Dial()
-				if err != nil {
-					return
+		// three bursts per case: all clients of a burst are released together
+		for round := 0; round < 3; round++ {
+			var wg sync.WaitGroup
+			start := make(chan struct{})
+			for i := 0; i < k; i++ {
+				tg := fmt.Sprintf("%s/r%d/p%d", base, round, i)
+				fl := map[string]string{}
+				var sb bytes.Buffer
+				body := []byte(fmt.Sprintf("body-of-%d-%d", n, i))
+				fmt.Fprintf(&sb, "POST %s HTTP/1.1\r\nHost: example.org\r\nConnection: close\r\nContent-Length: %d\r\n", tg, len(body))
+				for j := 0; j < nf; j++ {
+					name := fmt.Sprintf("x-p%d-%c%d", i, 'a'+rune((j*7+i)%26), j)
+					val := fmt.Sprintf("v-%d-%d-%d", n, i, j)
+					fl[name] = val
+					fmt.Fprintf(&sb, "%s: %s\r\n", name, val)
 				}
-				defer c.Close()
-				<-start
-				c.Write(raw)
-				sys.ReadAllTimeout(c, 5*time.Second)
-			}()
+				sb.WriteString("\r\n")
+				sb.Write(body)
+				issued[tg] = &c25Issued{Method: "POST", Fields: fl, Body: body, Sent: len(body), CL: true}
+				raw := sb.Bytes()
+				wg.Add(1)
+				go func() {
+					defer wg.Done()
+					c, err := w.rig.Dial()
+					if err != nil {
+						return
+					}
+					defer c.Close()
+					<-start
+					c.Write(raw)
+					sys.ReadAllTimeout(c, 5*time.Second)
+				}()
+			}
+			time.Sleep(2 * time.Millisecond)
+			close(start)
+			wg.Wait()
 		}
-		time.Sleep(2 * time.Millisecond)
-		close(start)
-		wg.Wait()
 	}
 	c25CheckStreams(rt, rec, w, ka, issued, mode, wit)
 	w.mu.Lock()
